@@ -2,10 +2,13 @@
    the change of the quota's max-limited request is handed up the chain. "All but ex" form: the
    quota named [ex] (the one being re-attached, or nobody) is exempt from the equations. *)
 From Coq Require Import List ZArith Bool Lia.
-From Verif Require Import Lib.Vec2 C01.Model C01.Spec C01.Proofs_Base C01.Proofs_Walk C01.Proofs_Delta
+From Verif Require Import Lib.VecN C01.Model C01.Spec C01.Proofs_Base C01.Proofs_Walk C01.Proofs_Delta
   C01.Proofs_Shape.
 Import ListNotations.
 Open Scope Z_scope.
+
+Section WithDim.
+Context {D : Dim}.
 
 Definition with_max (q : qshape) (m : vec) : qshape :=
   mkQ (q_name q) (q_parent q) (q_isparent q) (q_lend q) m (q_min q).
@@ -193,3 +196,5 @@ Section SetShape.
     Qed.
   End Step.
 End SetShape.
+
+End WithDim.
